@@ -2110,4 +2110,19 @@ class Builder:
         body = self.stmts(list(self.f.node.body), g.exit, top)
         g.entry = self.mk("entry")
         self.edge(g.entry, body)
+        # steps no path from the entry reaches (e.g. the `raise helper()` statement itself once the returns of the spliced helper were
+        # routed to raises of their own) take no part in anything: their edges are dropped, so that an exit only they lead to has no
+        # predecessor
+        live, work = {id(g.entry)}, [g.entry]
+        while work:
+            x = work.pop()
+            for y, _lab in x.succ:
+                if id(y) not in live:
+                    live.add(id(y))
+                    work.append(y)
+        for n in g.nodes:
+            if id(n) not in live and n.succ:
+                for y, lab in n.succ:
+                    y.pred = [(a, l_) for a, l_ in y.pred if a is not n]
+                n.succ = []
         return g
